@@ -932,6 +932,8 @@ class CallsMixin:
             else:
                 sub.spec = True
                 b = sub.truth(sub.eval_text(cond))
+                if not c.raises_exact:
+                    b = z3.And(b, self.p.fresh('raises!%s!%s' % (c.short, ek), z3.BoolSort()))
             if self.branch(b):
                 self.raise_from_contract(c, sub, ek, node)
         self.havoc_modifies(c, sub)
